@@ -87,8 +87,10 @@ static int unchanged(void) {
   for (size_t i = 0; i < NS; i++) { struct Slot* s = slot(t, i); if (s->h != SNAP[i].h || s->k.val != SNAP[i].k.val || s->v.val != SNAP[i].v.val || s->k.tok != SNAP[i].k.tok || s->v.tok != SNAP[i].v.tok) return 0; }
   return 1;
 }
+static int cv_resize_refusal_expected; static int cv_rehash_calls; static struct Table T3;
 void cv_on_throw(var obj) {
   if (obj == OutOfMemoryError) return;
+  if (t == &T3) { ASSERT(cv_resize_refusal_expected && obj == FormatError && cv_rehash_calls == 0 && T3.nitems == (size_t)old_len, "[C02][C12] resize is refused with FormatError exactly when the request is below the item count, before anything is rehashed"); return; }
   ASSERT(expect_throw, "[C02][C12] no exception on an operation the map can honour");
   ASSERT(!expect_throw || obj == expect_exc, "[C02][C12] the documented exception kind is raised (KeyError for an absent key)");
   ASSERT(unchanged(), "[C12] a failed operation leaves the Table exactly as it was");
@@ -299,7 +301,7 @@ void h_rehash(void) {
   COVER(NS <= 1 || (old_len >= 2), "rehash with several entries");
 }
 /* growth / shrink policy and Table_Ideal_Size */
-static size_t cv_rehash_to; static int cv_rehash_calls;
+static size_t cv_rehash_to;
 void cv_rehash_stub(struct Table* tt, size_t n) { cv_rehash_calls++; cv_rehash_to = n; }
 void h_policy(void) {
   for (size_t n = 0; n <= 120; n++) {
@@ -318,6 +320,18 @@ void h_policy(void) {
   Table_Resize_Less(&T2);
   ASSERT(cv_rehash_calls == (Table_Ideal_Size(in_items) < in_slots) && (!cv_rehash_calls || cv_rehash_to == Table_Ideal_Size(in_items)), "[C02] shrinking rehashes to the ideal capacity exactly when it is below the current one");
   COVER(1, "policy checked");
+}
+/* resize(t, n) as a request: fewer than the items held is refused (FormatError, nothing rehashed); anything else rehashes to a capacity
+ * that keeps a free slot for the items held (rehash cut by its contract); n == 0 clears */
+void h_resize_request(void) {
+  size_t in_items = nondet_ulong(), in_slots = nondet_ulong(), in_n = nondet_ulong();
+  __CPROVER_assume(in_items <= 120 && in_slots <= 211 && in_n >= 1 && in_n <= 120);
+  T3.nitems = in_items; T3.nslots = in_slots; t = &T3; old_len = (int)in_items;
+  cv_resize_refusal_expected = (in_n < in_items);
+  COVER(in_n < in_items && Table_Ideal_Size(in_n) >= in_items, "a request below the item count whose rounded capacity would still hold the items");
+  Table_Resize(&T3, in_n);
+  ASSERT(in_n >= in_items, "[C02][C12] resize to fewer than the items held raises FormatError");
+  ASSERT(cv_rehash_calls == 1 && cv_rehash_to > in_items && cv_rehash_to >= in_n, "[C02] resize rehashes once, to a capacity with room for the request and a free slot beyond the items held");
 }
 /* Table_Probe (loop-free): the probe distance of slot i for stored home h */
 void h_probe(void) {
